@@ -203,6 +203,8 @@ class KeplerNum(NumericalPropagator):
             if not hasattr(dates, "start"):
                 # Explicit list of dates (or any iterable) instead of a DateRange
                 dates = list(dates)
+                if not dates:
+                    return
                 start = min(dates)
                 stop = max(dates)
             else:
